@@ -86,14 +86,17 @@ Section RoundTrip.
   Variable read_uuid : str -> option val.
   Variable repl : str -> option val.
   Variable eval_fn : str -> option (list (str * val)) -> option val.
+  Variable vnone : val.
+  Variable has_ser : str -> str -> str -> bool.
   Variable pack : str -> str -> str -> list (str * val) -> val -> option val.
   Variable present : str -> str -> block val -> str -> val -> pres.
   Variable block_suffix : str -> str.
   Variable hdr_comments : msg val -> list str.
 
-  Local Notation hv := (handle_var val read_lit read_vec read_uuid repl eval_fn pack).
-  Local Notation go := (go val read_lit read_vec read_uuid repl eval_fn pack).
-  Local Notation from_human := (from_human val read_lit read_vec read_uuid repl eval_fn pack).
+  Local Notation hv := (handle_var val read_lit read_vec read_uuid repl eval_fn vnone has_ser).
+  Local Notation go := (go val read_lit read_vec read_uuid repl eval_fn vnone has_ser).
+  Local Notation from_human := (from_human val read_lit read_vec read_uuid repl eval_fn vnone has_ser pack).
+  Local Notation flushp := (flush_packed val pack).
   Local Notation sniff := (sniff val read_lit read_vec read_uuid repl).
   Local Notation to_human := (to_human val present block_suffix hdr_comments).
   Local Notation var_lines := (var_lines val present).
@@ -102,8 +105,10 @@ Section RoundTrip.
   Local Notation blist_lines := (blist_lines val present block_suffix).
   Local Notation body_lines := (body_lines val present block_suffix).
 
-  Definition mk (d : bool) (mn : str) (f : N) (bs : blocks val) (cur : option str) (tr : list str) : st val :=
-    {| s_msg := {| m_in := d; m_name := mn; m_flags := f; m_blocks := bs |}; s_cur := cur; s_trace := tr |}.
+  Definition mk (d : bool) (mn : str) (f : N) (bs : blocks val) (cur : option str) (tr : list str)
+             (pd : list (pitem val)) : st val :=
+    {| s_msg := {| m_in := d; m_name := mn; m_flags := f; m_blocks := bs |}; s_cur := cur; s_trace := tr;
+       s_pend := pd |}.
 
   (* ---- the loop ---- *)
   Lemma go_pend_done : forall safe lines n op v s,
@@ -237,6 +242,13 @@ Section RoundTrip.
       rewrite IH by (intro E; apply H; right; exact E). reflexivity.
   Qed.
 
+  Lemma create_list_new : forall bn done, ~ In bn (names done) -> create_list val bn done = done ++ [(bn, [])].
+  Proof.
+    induction done as [|[n l] done IH]; intro H; cbn in *; [reflexivity|].
+    rewrite str_eqb_neq by (intro E; apply H; left; symmetry; exact E).
+    rewrite IH by (intro E; apply H; right; exact E). reflexivity.
+  Qed.
+
   Lemma upd_last_snoc : forall A (f : A -> A) pb x, upd_last f (pb ++ [x]) = pb ++ [f x].
   Proof.
     induction pb as [|y pb IH]; intro x; [reflexivity|].
@@ -254,11 +266,11 @@ Section RoundTrip.
       rewrite IH by (intro E; apply H; right; exact E). reflexivity.
   Qed.
 
-  Lemma cur_vars_last : forall bn done pb pre, ~ In bn (names done) ->
-    cur_vars val bn (done ++ [(bn, pb ++ [pre])]) = pre.
+  Lemma cur_idx_last : forall bn done pb (pre : block val), ~ In bn (names done) ->
+    cur_idx val bn (done ++ [(bn, pb ++ [pre])]) = length pb.
   Proof.
     induction done as [|[n l0] done IH]; intros pb pre H; cbn in *.
-    - rewrite str_eqb_refl. apply last_last.
+    - rewrite str_eqb_refl, app_length. cbn. lia.
     - rewrite str_eqb_neq by (intro E; apply H; left; symmetry; exact E).
       apply IH. intro E; apply H; right; exact E.
   Qed.
@@ -270,63 +282,141 @@ Section RoundTrip.
     rewrite IH by (intro E; apply H; right; exact E). reflexivity.
   Qed.
 
+  Lemma dict_set_mid : forall k y z pre r, ~ In k (keys pre) ->
+    dict_set val k y (pre ++ (k, z) :: r) = pre ++ (k, y) :: r.
+  Proof.
+    induction pre as [|[k' v'] pre IH]; intros r H; cbn in *.
+    - rewrite str_eqb_refl. reflexivity.
+    - rewrite str_eqb_neq by (intro E; apply H; left; symmetry; exact E).
+      rewrite IH by (intro E; apply H; right; exact E). reflexivity.
+  Qed.
+
+  Lemma nth_error_mid : forall A (pb : list A) x qb, nth_error (pb ++ x :: qb) (length pb) = Some x.
+  Proof. induction pb as [|y pb IH]; intros; cbn; [reflexivity | apply IH]. Qed.
+
+  Lemma upd_nth_mid : forall A (f : A -> A) pb x qb, upd_nth f (length pb) (pb ++ x :: qb) = pb ++ f x :: qb.
+  Proof. induction pb as [|y pb IH]; intros; cbn; [reflexivity | rewrite IH; reflexivity]. Qed.
+
+  Lemma get_block_at : forall bn done pb x qb later, ~ In bn (names done) ->
+    get_block val bn (length pb) (done ++ (bn, pb ++ x :: qb) :: later) = Some x.
+  Proof.
+    induction done as [|[n l0] done IH]; intros pb x qb later H; cbn in *.
+    - rewrite str_eqb_refl. apply nth_error_mid.
+    - rewrite str_eqb_neq by (intro E; apply H; left; symmetry; exact E).
+      apply IH. intro E; apply H; right; exact E.
+  Qed.
+
+  Lemma set_block_at : forall bn k y done pb x qb later, ~ In bn (names done) ->
+    set_block val bn (length pb) k y (done ++ (bn, pb ++ x :: qb) :: later)
+    = done ++ (bn, pb ++ dict_set val k y x :: qb) :: later.
+  Proof.
+    induction done as [|[n l0] done IH]; intros pb x qb later H; cbn in *.
+    - rewrite str_eqb_refl, upd_nth_mid. reflexivity.
+    - rewrite str_eqb_neq by (intro E; apply H; left; symmetry; exact E).
+      rewrite IH by (intro E; apply H; right; exact E). reflexivity.
+  Qed.
+
   (* ---- one statement against the state ---- *)
-  Lemma hv_plain : forall safe d mn f bs bn tr k v x,
+  Lemma hv_plain : forall safe d mn f bs bn tr pd k v x,
     sniff v = Some x ->
-    hv safe (mk d mn f bs (Some bn) tr) k [EQ] v = inl (mk d mn f (assign val bn k x bs) (Some bn) tr).
+    hv safe (mk d mn f bs (Some bn) tr pd) k [EQ] v = inl (mk d mn f (assign val bn k x bs) (Some bn) tr pd).
   Proof.
     intros. unfold handle_var.
     change (str_eqb [EQ] [EQ]) with true. change (mem DOLLAR [EQ]) with false. change (mem BAR [EQ]) with false.
-    cbn [andb mk s_cur s_msg m_blocks m_name s_trace]. rewrite H. reflexivity.
+    cbn [andb mk s_cur s_msg m_blocks m_name s_trace s_pend]. rewrite H. reflexivity.
   Qed.
 
-  Lemma hv_packed : forall safe d mn f bs bn tr k v pv x,
-    read_lit v = Some pv -> pack mn bn k (cur_vars val bn bs) pv = Some x ->
-    hv safe (mk d mn f bs (Some bn) tr) k [EQ; BAR] v = inl (mk d mn f (assign val bn k x bs) (Some bn) tr).
+  Lemma hv_packed : forall safe d mn f bs bn tr pd k v pv,
+    read_lit v = Some pv -> has_ser mn bn k = true ->
+    hv safe (mk d mn f bs (Some bn) tr pd) k [EQ; BAR] v =
+    inl (mk d mn f (assign val bn k vnone bs) (Some bn) tr (pd ++ [(bn, cur_idx val bn bs, k, pv)])).
   Proof.
     intros. unfold handle_var.
     change (str_eqb [EQ; BAR] [EQ]) with false. change (mem DOLLAR [EQ; BAR]) with false.
     change (mem BAR [EQ; BAR]) with true.
-    cbn [andb mk s_cur s_msg m_blocks m_name s_trace]. rewrite H, H0. reflexivity.
+    cbn [andb mk s_cur s_msg m_blocks m_name s_trace s_pend]. rewrite H, H0. reflexivity.
   Qed.
 
-  (* hypotheses on how one variable is shown (H1-H4 of the design), [pre] being
-     the variables of the block that precede it *)
-  Definition var_ok (mn bn : str) (whole pre : block val) (k : str) (v : val) : Prop :=
+  (* ---- what the scan leaves behind: placeholders and pending packers ---- *)
+  Definition is_packed (p : pres) : bool := match p with PPlain _ => false | _ => true end.
+  Definition pv_of (p : pres) : option val :=
+    match p with
+    | PPlain _ => None
+    | PInline ls o => read_lit (concat (map strip (append_last ls ([SP; HASH] ++ o))))
+    | PAbove ls o => read_lit (concat (map strip ls))
+    end.
+  Definition mvar (mn bn : str) (whole : block val) (e : str * val) : str * val :=
+    if is_packed (present mn bn whole (fst e) (snd e)) then (fst e, vnone) else e.
+  Definition pend_var (mn bn : str) (idx : nat) (whole : block val) (e : str * val) : list (pitem val) :=
+    if is_packed (present mn bn whole (fst e) (snd e)) then
+      match pv_of (present mn bn whole (fst e) (snd e)) with
+      | Some pv => [(bn, idx, fst e, pv)]
+      | None => []
+      end
+    else [].
+  Definition mblock (mn bn : str) (b : block val) : block val := map (mvar mn bn b) b.
+  Fixpoint pend_blocks (mn bn : str) (idx : nat) (bl : list (block val)) : list (pitem val) :=
+    match bl with
+    | [] => []
+    | b :: r => flat_map (pend_var mn bn idx b) b ++ pend_blocks mn bn (S idx) r
+    end.
+  Definition mentry (mn : str) (e : str * list (block val)) : str * list (block val) :=
+    (fst e, map (mblock mn (fst e)) (snd e)).
+  Definition pend_entry (mn : str) (e : str * list (block val)) : list (pitem val) :=
+    pend_blocks mn (fst e) 0 (snd e).
+
+  Lemma mvar_fst : forall mn bn whole e, fst (mvar mn bn whole e) = fst e.
+  Proof. intros. unfold mvar. destruct (is_packed _); reflexivity. Qed.
+
+  Lemma keys_mvar : forall mn bn whole l, keys (map (mvar mn bn whole) l) = keys l.
+  Proof. intros. unfold keys. rewrite map_map. apply map_ext. intro e. apply mvar_fst. Qed.
+
+  (* hypotheses on how one variable is shown (H1-H4 of the design).  [pre] are the
+     variables of the block before it, [post] those after it: when its packer
+     runs (after the whole text is read) the block holds the true values of
+     [pre], a None placeholder for the variable itself, and [post] with
+     placeholders for the packed ones *)
+  Definition var_ok (mn bn : str) (whole pre : block val) (k : str) (v : val) (post : block val) : Prop :=
     wordy k /\
     match present mn bn whole k v with
     | PPlain ls => lines_ok ls /\ sniff (concat (map strip ls)) = Some v
     | PInline ls o =>
-      lines_ok (append_last ls ([SP; HASH] ++ o)) /\
+      lines_ok (append_last ls ([SP; HASH] ++ o)) /\ has_ser mn bn k = true /\
       exists pv, read_lit (concat (map strip (append_last ls ([SP; HASH] ++ o)))) = Some pv
-                 /\ pack mn bn k pre pv = Some v
+                 /\ pack mn bn k (pre ++ (k, vnone) :: map (mvar mn bn whole) post) pv = Some v
     | PAbove ls o =>
-      lines_ok ls /\ mem NL o = false /\
-      exists pv, read_lit (concat (map strip ls)) = Some pv /\ pack mn bn k pre pv = Some v
+      lines_ok ls /\ mem NL o = false /\ has_ser mn bn k = true /\
+      exists pv, read_lit (concat (map strip ls)) = Some pv
+                 /\ pack mn bn k (pre ++ (k, vnone) :: map (mvar mn bn whole) post) pv = Some v
     end.
 
-  Lemma go_var : forall safe d mn f done bn pb pre whole k v tr rest,
-    ~ In bn (names done) -> ~ In k (keys pre) -> var_ok mn bn whole pre k v ->
-    go safe (preps (var_lines mn bn whole k v) ++ rest) None (mk d mn f (done ++ [(bn, pb ++ [pre])]) (Some bn) tr) =
-    go safe rest None (mk d mn f (done ++ [(bn, pb ++ [pre ++ [(k, v)]])]) (Some bn) tr).
+  Lemma go_var : forall safe d mn f done bn pb pre0 whole pre k v post tr pd rest,
+    ~ In bn (names done) -> ~ In k (keys pre0) -> var_ok mn bn whole pre k v post ->
+    go safe (preps (var_lines mn bn whole k v) ++ rest) None
+       (mk d mn f (done ++ [(bn, pb ++ [pre0])]) (Some bn) tr pd) =
+    go safe rest None
+       (mk d mn f (done ++ [(bn, pb ++ [pre0 ++ [mvar mn bn whole (k, v)]])]) (Some bn) tr
+           (pd ++ pend_var mn bn (length pb) whole (k, v))).
   Proof.
-    intros safe d mn f done bn pb pre whole k v tr rest Hbn Hk [Hw H]. unfold HumanText.var_lines.
-    destruct (present mn bn whole k v) as [ls | ls o | ls o].
+    intros safe d mn f done bn pb pre0 whole pre k v post tr pd rest Hbn Hk [Hw H].
+    unfold HumanText.var_lines, mvar, pend_var. cbn [fst snd].
+    destruct (present mn bn whole k v) as [ls | ls o | ls o]; cbn [is_packed pv_of].
     - destruct H as [Hls Hs].
       change ([SP; SP] ++ k ++ [SP; EQ; SP]) with ([SP; SP] ++ k ++ [SP; EQ] ++ [] ++ [SP]).
       rewrite go_stmt by (try assumption; reflexivity).
-      rewrite (hv_plain _ _ _ _ _ _ _ _ _ v Hs), assign_last, dict_set_new by assumption. reflexivity.
-    - destruct H as [Hls (pv & Hr & Hp)].
+      rewrite (hv_plain _ _ _ _ _ _ _ _ _ _ v Hs), assign_last, dict_set_new by assumption.
+      rewrite app_nil_r. reflexivity.
+    - destruct H as (Hls & Hser & pv & Hr & Hp). rewrite Hr.
       change ([SP; SP] ++ k ++ [SP; EQ; BAR; SP]) with ([SP; SP] ++ k ++ [SP; EQ] ++ [BAR] ++ [SP]).
       rewrite go_stmt by (try assumption; reflexivity).
-      rewrite (hv_packed _ _ _ _ _ _ _ _ _ pv v Hr) by (rewrite cur_vars_last by assumption; exact Hp).
-      rewrite assign_last, dict_set_new by assumption. reflexivity.
-    - destruct H as [Hls (Ho & pv & Hr & Hp)].
+      rewrite (hv_packed _ _ _ _ _ _ _ _ _ _ pv Hr Hser).
+      rewrite assign_last, dict_set_new, cur_idx_last by assumption. reflexivity.
+    - destruct H as (Hls & Ho & Hser & pv & Hr & Hp). rewrite Hr.
       change ([SP; SP] ++ k ++ [SP; EQ; BAR; SP]) with ([SP; SP] ++ k ++ [SP; EQ] ++ [BAR] ++ [SP]).
       rewrite preps_app, <- app_assoc.
       rewrite go_stmt by (try assumption; reflexivity).
-      rewrite (hv_packed _ _ _ _ _ _ _ _ _ pv v Hr) by (rewrite cur_vars_last by assumption; exact Hp).
-      rewrite assign_last, dict_set_new by assumption.
+      rewrite (hv_packed _ _ _ _ _ _ _ _ _ _ pv Hr Hser).
+      rewrite assign_last, dict_set_new, cur_idx_last by assumption.
       destruct (strip_head [SP; SP] HASH (k ++ [SP; EQ; SP] ++ o) eq_refl eq_refl) as [t' Ht].
       change ([SP; SP; HASH] ++ k ++ [SP; EQ; SP] ++ o) with ([SP; SP] ++ HASH :: k ++ [SP; EQ; SP] ++ o).
       rewrite preps_one by (rewrite Ht; discriminate). rewrite Ht. cbn [app]. apply go_comment.
@@ -335,23 +425,30 @@ Section RoundTrip.
   Fixpoint vars_ok (mn bn : str) (whole pre post : block val) : Prop :=
     match post with
     | [] => True
-    | (k, v) :: r => var_ok mn bn whole pre k v /\ ~ In k (keys pre) /\ vars_ok mn bn whole (pre ++ [(k, v)]) r
+    | (k, v) :: r => var_ok mn bn whole pre k v r /\ ~ In k (keys pre) /\ vars_ok mn bn whole (pre ++ [(k, v)]) r
     end.
 
-  Lemma go_vars : forall safe d mn f done bn pb whole tr rest post pre,
-    ~ In bn (names done) -> vars_ok mn bn whole pre post ->
-    go safe (preps (vars_lines mn bn whole post) ++ rest) None (mk d mn f (done ++ [(bn, pb ++ [pre])]) (Some bn) tr) =
-    go safe rest None (mk d mn f (done ++ [(bn, pb ++ [pre ++ post])]) (Some bn) tr).
+  Lemma go_vars : forall safe d mn f done bn pb whole tr rest post pre pre0 pd,
+    ~ In bn (names done) -> keys pre0 = keys pre -> vars_ok mn bn whole pre post ->
+    go safe (preps (vars_lines mn bn whole post) ++ rest) None
+       (mk d mn f (done ++ [(bn, pb ++ [pre0])]) (Some bn) tr pd) =
+    go safe rest None
+       (mk d mn f (done ++ [(bn, pb ++ [pre0 ++ map (mvar mn bn whole) post])]) (Some bn) tr
+           (pd ++ flat_map (pend_var mn bn (length pb) whole) post)).
   Proof.
-    intros safe d mn f done bn pb whole tr rest. induction post as [|[k v] post IH]; intros pre Hbn H.
-    - cbn. rewrite app_nil_r. reflexivity.
+    intros safe d mn f done bn pb whole tr rest. induction post as [|[k v] post IH]; intros pre pre0 pd Hbn Hkeys H.
+    - cbn. rewrite !app_nil_r. reflexivity.
     - destruct H as (Hv & Hk & Hr). cbn [HumanText.vars_lines]. rewrite preps_app, <- app_assoc.
-      rewrite go_var by assumption. rewrite IH by assumption. rewrite <- app_assoc. reflexivity.
+      rewrite (go_var safe d mn f done bn pb pre0 whole pre k v post) by (try assumption; rewrite Hkeys; exact Hk).
+      rewrite (IH (pre ++ [(k, v)])); try assumption.
+      + cbn [map flat_map]. rewrite <- !app_assoc. reflexivity.
+      + unfold keys in *. rewrite !map_app, Hkeys. cbn [map]. rewrite mvar_fst. reflexivity.
   Qed.
 
   (* ---- blocks ---- *)
   Definition suffix_ok (bn : str) : Prop :=
-    mem NL (block_suffix bn) = false /\ last_ns (RBR :: block_suffix bn) = true.
+    mem NL (block_suffix bn) = false /\ last_ns (RBR :: block_suffix bn) = true
+    /\ empty_marker (LBR :: bn ++ RBR :: block_suffix bn) = false.
 
   Definition entry (pb : list (block val)) (bn : str) : blocks val :=
     match pb with [] => [] | _ => [(bn, pb)] end.
@@ -359,55 +456,65 @@ Section RoundTrip.
   Lemma entry_snoc : forall pb b bn, entry (pb ++ [b]) bn = [(bn, pb ++ [b])].
   Proof. intros. unfold entry. destruct (pb ++ [b]) eqn:E; [destruct pb; discriminate | reflexivity]. Qed.
 
-  Lemma block_line_strip : forall bn, wordy bn -> suffix_ok bn ->
-    strip (LBR :: bn ++ RBR :: block_suffix bn) = LBR :: bn ++ RBR :: block_suffix bn.
+  Lemma block_line_strip : forall bn sfx, last_ns (RBR :: sfx) = true ->
+    strip (LBR :: bn ++ RBR :: sfx) = LBR :: bn ++ RBR :: sfx.
   Proof.
-    intros bn Hw [_ Hs]. apply strip_id; [reflexivity|].
-    change (LBR :: bn ++ RBR :: block_suffix bn) with ((LBR :: bn) ++ RBR :: block_suffix bn).
+    intros bn sfx Hs. apply strip_id; [reflexivity|].
+    change (LBR :: bn ++ RBR :: sfx) with ((LBR :: bn) ++ RBR :: sfx).
     apply last_ns_app. exact Hs.
   Qed.
 
-  Lemma go_block : forall safe d mn f done bn pb b cur tr rest,
-    ~ In bn (names done) -> wordy bn -> suffix_ok bn -> vars_ok mn bn b [] b ->
-    go safe (preps (block_lines mn bn b) ++ rest) None (mk d mn f (done ++ entry pb bn) cur tr) =
-    go safe rest None (mk d mn f (done ++ [(bn, pb ++ [b])]) (Some bn) tr).
+  Lemma block_name_line : forall bn sfx, wordy bn -> block_name (LBR :: bn ++ RBR :: sfx) = Some bn.
   Proof.
-    intros safe d mn f done bn pb b cur tr rest Hbn Hw Hs Hv. unfold HumanText.block_lines.
+    intros bn sfx Hw. unfold block_name. destruct Hw as [Hw1 Hw2]. destruct bn as [|c0 bn']; [contradiction|].
+    assert (Hc0 : is_word c0 = true) by (cbn in Hw2; apply andb_true_iff in Hw2; tauto).
+    cbn [drop_while app]. change (negb (is_word LBR)) with true. cbv iota. rewrite Hc0. cbn [negb]. cbv iota.
+    destruct (take_drop_stop is_word (c0 :: bn') RBR sfx Hw2 eq_refl) as [E _].
+    cbn [app] in E. rewrite E. reflexivity.
+  Qed.
+
+  Lemma go_block : forall safe d mn f done bn pb b cur tr pd rest,
+    ~ In bn (names done) -> wordy bn -> suffix_ok bn -> vars_ok mn bn b [] b ->
+    go safe (preps (block_lines mn bn b) ++ rest) None (mk d mn f (done ++ entry pb bn) cur tr pd) =
+    go safe rest None (mk d mn f (done ++ [(bn, pb ++ [mblock mn bn b])]) (Some bn) tr
+                          (pd ++ flat_map (pend_var mn bn (length pb) b) b)).
+  Proof.
+    intros safe d mn f done bn pb b cur tr pd rest Hbn Hw (Hs1 & Hs2 & Hs3) Hv. unfold HumanText.block_lines.
     rewrite preps_cons, <- app_assoc.
     rewrite preps_one by (rewrite block_line_strip by assumption; discriminate).
     rewrite block_line_strip by assumption. cbn [app HumanText.go]. unfold dispatch.
     change (is_comment (LBR :: bn ++ RBR :: block_suffix bn)) with false.
     change (starts_with LBR (LBR :: bn ++ RBR :: block_suffix bn)) with true. cbv iota.
-    assert (BN : block_name (LBR :: bn ++ RBR :: block_suffix bn) = Some bn).
-    { unfold block_name. destruct Hw as [Hw1 Hw2]. destruct bn as [|c0 bn']; [contradiction|].
-      assert (Hc0 : is_word c0 = true) by (cbn in Hw2; apply andb_true_iff in Hw2; tauto).
-      cbn [drop_while app]. change (negb (is_word LBR)) with true. cbv iota. rewrite Hc0. cbn [negb]. cbv iota.
-      destruct (take_drop_stop is_word (c0 :: bn') RBR (block_suffix (c0 :: bn')) Hw2 eq_refl) as [E _].
-      cbn [app] in E. rewrite E. reflexivity. }
-    rewrite BN. unfold new_block, mk. cbn [s_msg s_trace m_in m_name m_flags m_blocks].
+    rewrite block_name_line by exact Hw. rewrite Hs3.
+    unfold new_block, mk. cbn [s_msg s_trace s_pend m_in m_name m_flags m_blocks].
     assert (AB : add_block val bn (done ++ entry pb bn) = done ++ [(bn, pb ++ [[]])]).
     { destruct pb as [|b0 pb']; cbn [entry].
       - rewrite app_nil_r. apply add_block_new. exact Hbn.
       - apply add_block_last. exact Hbn. }
-    rewrite AB. fold (mk d mn f (done ++ [(bn, pb ++ [[]])]) (Some bn) tr).
-    rewrite go_vars by assumption. reflexivity.
+    rewrite AB. fold (mk d mn f (done ++ [(bn, pb ++ [[]])]) (Some bn) tr pd).
+    etransitivity.
+    { apply (go_vars safe d mn f done bn pb b tr rest b [] [] pd); try assumption; reflexivity. }
+    reflexivity.
   Qed.
 
-  Lemma go_blist : forall safe d mn f done bn tr rest bl pb cur,
+  Lemma go_blist : forall safe d mn f done bn tr rest bl pb cur pd,
     ~ In bn (names done) -> wordy bn -> suffix_ok bn -> Forall (fun b => vars_ok mn bn b [] b) bl ->
-    exists cur', go safe (preps (flat_map (block_lines mn bn) bl) ++ rest) None (mk d mn f (done ++ entry pb bn) cur tr) =
-                 go safe rest None (mk d mn f (done ++ entry (pb ++ bl) bn) cur' tr).
+    exists cur', go safe (preps (flat_map (block_lines mn bn) bl) ++ rest) None
+                    (mk d mn f (done ++ entry pb bn) cur tr pd) =
+                 go safe rest None
+                    (mk d mn f (done ++ entry (pb ++ map (mblock mn bn) bl) bn) cur' tr
+                        (pd ++ pend_blocks mn bn (length pb) bl)).
   Proof.
-    intros safe d mn f done bn tr rest. induction bl as [|b bl IH]; intros pb cur Hbn Hw Hs H.
-    - exists cur. cbn. rewrite app_nil_r. reflexivity.
+    intros safe d mn f done bn tr rest. induction bl as [|b bl IH]; intros pb cur pd Hbn Hw Hs H.
+    - exists cur. cbn. rewrite !app_nil_r. reflexivity.
     - inversion H as [|? ? Hb Hbl]; subst. cbn [flat_map]. rewrite preps_app, <- app_assoc.
       rewrite go_block by assumption. rewrite <- entry_snoc.
-      destruct (IH (pb ++ [b]) (Some bn) Hbn Hw Hs Hbl) as [cur' E]. exists cur'. rewrite E.
-      rewrite <- app_assoc. reflexivity.
+      destruct (IH (pb ++ [mblock mn bn b]) (Some bn) (pd ++ flat_map (pend_var mn bn (length pb) b) b) Hbn Hw Hs Hbl)
+        as [cur' E].
+      exists cur'. rewrite E. rewrite app_length. cbn [length map pend_blocks].
+      replace (length pb + 1)%nat with (S (length pb)) by lia.
+      rewrite <- !app_assoc. reflexivity.
   Qed.
-
-  Definition drop_empty (es : blocks val) : blocks val :=
-    filter (fun e => match snd e with [] => false | _ => true end) es.
 
   Definition entry_ok (mn : str) (e : str * list (block val)) : Prop :=
     wordy (fst e) /\ suffix_ok (fst e) /\ Forall (fun b => vars_ok mn (fst e) b [] b) (snd e).
@@ -415,30 +522,128 @@ Section RoundTrip.
   Lemma names_app : forall a b, names (a ++ b) = names a ++ names b.
   Proof. intros. unfold names. apply map_app. Qed.
 
-  Lemma go_entries : forall safe d mn f tr rest es done cur,
-    NoDup (names done ++ names es) -> Forall (entry_ok mn) es ->
-    exists cur', go safe (preps (flat_map (blist_lines mn) es) ++ rest) None (mk d mn f done cur tr) =
-                 go safe rest None (mk d mn f (done ++ drop_empty es) cur' tr).
+  Lemma empty_line_marker : forall bn, empty_marker (LBR :: bn ++ RBR :: s_EMPTY_sfx) = true.
   Proof.
-    intros safe d mn f tr rest. induction es as [|[bn bl] es IH]; intros done cur Hnd H.
-    - exists cur. cbn. rewrite app_nil_r. reflexivity.
+    intro bn. unfold empty_marker.
+    replace (LBR :: bn ++ RBR :: s_EMPTY_sfx) with ((LBR :: bn ++ [RBR]) ++ s_EMPTY_sfx)
+      by (cbn [app]; rewrite <- app_assoc; reflexivity).
+    rewrite rev_app_distr. reflexivity.
+  Qed.
+
+  Lemma go_empty : forall safe d mn f done bn cur tr pd rest,
+    ~ In bn (names done) -> wordy bn ->
+    go safe (preps [LBR :: bn ++ RBR :: s_EMPTY_sfx] ++ rest) None (mk d mn f done cur tr pd) =
+    go safe rest None (mk d mn f (done ++ [(bn, [])]) None tr pd).
+  Proof.
+    intros safe d mn f done bn cur tr pd rest Hbn Hw.
+    rewrite preps_one by (rewrite block_line_strip by reflexivity; discriminate).
+    rewrite block_line_strip by reflexivity. cbn [app HumanText.go]. unfold dispatch.
+    change (is_comment (LBR :: bn ++ RBR :: s_EMPTY_sfx)) with false.
+    change (starts_with LBR (LBR :: bn ++ RBR :: s_EMPTY_sfx)) with true. cbv iota.
+    rewrite block_name_line by exact Hw. rewrite empty_line_marker.
+    unfold empty_list, mk. cbn [s_msg s_trace s_pend m_in m_name m_flags m_blocks].
+    rewrite create_list_new by exact Hbn. reflexivity.
+  Qed.
+
+  Lemma go_entries : forall safe d mn f tr rest es done cur pd,
+    NoDup (names done ++ names es) -> Forall (entry_ok mn) es ->
+    exists cur', go safe (preps (flat_map (blist_lines mn) es) ++ rest) None (mk d mn f done cur tr pd) =
+                 go safe rest None (mk d mn f (done ++ map (mentry mn) es) cur' tr
+                                       (pd ++ flat_map (pend_entry mn) es)).
+  Proof.
+    intros safe d mn f tr rest. induction es as [|[bn bl] es IH]; intros done cur pd Hnd H.
+    - exists cur. cbn. rewrite !app_nil_r. reflexivity.
     - inversion H as [|? ? He Hes]; subst. destruct He as (Hw & Hs & Hb). cbn [fst snd] in *.
       cbn [names map fst] in Hnd.
       assert (Hbn : ~ In bn (names done)).
       { apply NoDup_remove_2 in Hnd. intro X. apply Hnd. apply in_or_app. left. exact X. }
-      cbn [flat_map]. unfold HumanText.blist_lines at 1. cbn [fst snd]. rewrite preps_app, <- app_assoc.
-      destruct (go_blist safe d mn f done bn tr (preps (flat_map (blist_lines mn) es) ++ rest) bl [] cur Hbn Hw Hs Hb)
-        as [cur1 E].
-      cbn [entry app] in E. rewrite app_nil_r in E. rewrite E.
-      assert (Hnd' : NoDup (names (done ++ entry bl bn) ++ names es)).
-      { destruct bl as [|b0 bl']; cbn [entry].
-        - rewrite app_nil_r. apply NoDup_remove_1 in Hnd. exact Hnd.
-        - rewrite names_app. cbn [names map fst]. rewrite <- app_assoc. exact Hnd. }
-      destruct (IH (done ++ entry bl bn) cur1 Hnd' Hes) as [cur' E2]. exists cur'. rewrite E2.
-      f_equal. f_equal. unfold drop_empty. cbn [filter snd].
-      destruct bl as [|b0 bl']; cbn [entry].
-      + rewrite app_nil_r. reflexivity.
-      + rewrite <- app_assoc. reflexivity.
+      assert (Hnd' : forall l, NoDup (names (done ++ [(bn, l)]) ++ names es)).
+      { intro l. rewrite names_app. cbn [names map fst]. rewrite <- app_assoc. exact Hnd. }
+      cbn [flat_map map]. unfold HumanText.blist_lines at 1, mentry at 1, pend_entry at 1. cbn [fst snd].
+      rewrite preps_app, <- app_assoc.
+      destruct bl as [|b0 bl'].
+      + rewrite go_empty by assumption.
+        destruct (IH (done ++ [(bn, [])]) None pd (Hnd' []) Hes) as [cur' E]. exists cur'. rewrite E.
+        cbn [map pend_blocks app]. rewrite <- app_assoc. reflexivity.
+      + destruct (go_blist safe d mn f done bn tr (preps (flat_map (blist_lines mn) es) ++ rest) (b0 :: bl') [] cur pd
+                           Hbn Hw Hs Hb) as [cur1 E].
+        cbn [entry app] in E. rewrite app_nil_r in E. rewrite E.
+        cbn [map entry length].
+        destruct (IH (done ++ [(bn, mblock mn bn b0 :: map (mblock mn bn) bl')]) cur1
+                     (pd ++ pend_blocks mn bn 0 (b0 :: bl')) (Hnd' _) Hes) as [cur' E2].
+        exists cur'. rewrite E2. rewrite <- !app_assoc. reflexivity.
+  Qed.
+
+  (* ---- the deferred packers ---- *)
+  Lemma flush_vars : forall mn bn done pb qb later whole restpd post pre,
+    ~ In bn (names done) -> vars_ok mn bn whole pre post ->
+    flushp mn (flat_map (pend_var mn bn (length pb) whole) post ++ restpd)
+           (done ++ (bn, pb ++ (pre ++ map (mvar mn bn whole) post) :: qb) :: later) =
+    flushp mn restpd (done ++ (bn, pb ++ (pre ++ post) :: qb) :: later).
+  Proof.
+    intros mn bn done pb qb later whole restpd. induction post as [|[k v] post IH]; intros pre Hbn H.
+    - reflexivity.
+    - destruct H as ([Hw Hv] & Hk & Hr). cbn [flat_map map]. rewrite <- app_assoc.
+      unfold pend_var at 1, mvar at 1. cbn [fst snd].
+      destruct (present mn bn whole k v) as [ls | ls o | ls o]; cbn [is_packed pv_of].
+      + cbn [app]. replace (pre ++ (k, v) :: map (mvar mn bn whole) post)
+          with ((pre ++ [(k, v)]) ++ map (mvar mn bn whole) post) by (rewrite <- app_assoc; reflexivity).
+        rewrite IH by assumption. rewrite <- app_assoc. reflexivity.
+      + destruct Hv as (_ & _ & pv & Hrl & Hp). rewrite Hrl. cbn [app flush_packed].
+        rewrite get_block_at by exact Hbn. rewrite Hp.
+        rewrite set_block_at by exact Hbn. rewrite dict_set_mid by exact Hk.
+        replace (pre ++ (k, v) :: map (mvar mn bn whole) post)
+          with ((pre ++ [(k, v)]) ++ map (mvar mn bn whole) post) by (rewrite <- app_assoc; reflexivity).
+        rewrite IH by assumption. rewrite <- app_assoc. reflexivity.
+      + destruct Hv as (_ & _ & _ & pv & Hrl & Hp). rewrite Hrl. cbn [app flush_packed].
+        rewrite get_block_at by exact Hbn. rewrite Hp.
+        rewrite set_block_at by exact Hbn. rewrite dict_set_mid by exact Hk.
+        replace (pre ++ (k, v) :: map (mvar mn bn whole) post)
+          with ((pre ++ [(k, v)]) ++ map (mvar mn bn whole) post) by (rewrite <- app_assoc; reflexivity).
+        rewrite IH by assumption. rewrite <- app_assoc. reflexivity.
+  Qed.
+
+  Lemma flush_blocks : forall mn bn done later restpd bl pb,
+    ~ In bn (names done) -> Forall (fun b => vars_ok mn bn b [] b) bl ->
+    flushp mn (pend_blocks mn bn (length pb) bl ++ restpd)
+           (done ++ (bn, pb ++ map (mblock mn bn) bl) :: later) =
+    flushp mn restpd (done ++ (bn, pb ++ bl) :: later).
+  Proof.
+    intros mn bn done later restpd. induction bl as [|b bl IH]; intros pb Hbn H.
+    - reflexivity.
+    - inversion H as [|? ? Hb Hbl]; subst. cbn [pend_blocks map]. rewrite <- app_assoc.
+      pose proof (flush_vars mn bn done pb (map (mblock mn bn) bl) later b
+                    (pend_blocks mn bn (S (length pb)) bl ++ restpd) b [] Hbn Hb) as E.
+      etransitivity; [exact E|]. clear E.
+      change (flushp mn (pend_blocks mn bn (S (length pb)) bl ++ restpd)
+                (done ++ (bn, pb ++ b :: map (mblock mn bn) bl) :: later) =
+              flushp mn restpd (done ++ (bn, pb ++ b :: bl) :: later)).
+      replace (pb ++ b :: map (mblock mn bn) bl) with ((pb ++ [b]) ++ map (mblock mn bn) bl)
+        by (rewrite <- app_assoc; reflexivity).
+      replace (S (length pb)) with (length (pb ++ [b])) by (rewrite app_length; cbn; lia).
+      rewrite IH by assumption. rewrite <- app_assoc. reflexivity.
+  Qed.
+
+  Lemma flush_entries : forall mn restpd es done,
+    NoDup (names done ++ names es) -> Forall (entry_ok mn) es ->
+    flushp mn (flat_map (pend_entry mn) es ++ restpd) (done ++ map (mentry mn) es) =
+    flushp mn restpd (done ++ es).
+  Proof.
+    intros mn restpd. induction es as [|[bn bl] es IH]; intros done Hnd H.
+    - reflexivity.
+    - inversion H as [|? ? He Hes]; subst. destruct He as (Hw & Hs & Hb). cbn [fst snd] in *.
+      cbn [names map fst] in Hnd.
+      assert (Hbn : ~ In bn (names done)).
+      { apply NoDup_remove_2 in Hnd. intro X. apply Hnd. apply in_or_app. left. exact X. }
+      cbn [flat_map map]. unfold pend_entry at 1, mentry at 1. cbn [fst snd]. rewrite <- app_assoc.
+      pose proof (flush_blocks mn bn done (map (mentry mn) es) (flat_map (pend_entry mn) es ++ restpd) bl [] Hbn Hb) as E.
+      etransitivity; [exact E|]. clear E.
+      change (flushp mn (flat_map (pend_entry mn) es ++ restpd) (done ++ (bn, bl) :: map (mentry mn) es) =
+              flushp mn restpd (done ++ (bn, bl) :: es)).
+      replace (done ++ (bn, bl) :: map (mentry mn) es) with ((done ++ [(bn, bl)]) ++ map (mentry mn) es)
+        by (rewrite <- app_assoc; reflexivity).
+      rewrite IH; [rewrite <- app_assoc; reflexivity | | exact Hes].
+      rewrite names_app. cbn [names map fst]. rewrite <- app_assoc. exact Hnd.
   Qed.
 
   (* ---- comments and header ---- *)
@@ -547,10 +752,10 @@ Section RoundTrip.
   Lemma wordy_nonl : forall k, wordy k -> nonl k.
   Proof. intros k Hk. apply wordy_no; [exact Hk | reflexivity]. Qed.
 
-  Lemma var_lines_nonl : forall mn bn whole pre k v,
-    var_ok mn bn whole pre k v -> Forall nonl (var_lines mn bn whole k v).
+  Lemma var_lines_nonl : forall mn bn whole pre k v post,
+    var_ok mn bn whole pre k v post -> Forall nonl (var_lines mn bn whole k v).
   Proof.
-    intros mn bn whole pre k v [Hw H]. unfold HumanText.var_lines.
+    intros mn bn whole pre k v post [Hw H]. unfold HumanText.var_lines.
     assert (P1 : nonl ([SP; SP] ++ k ++ [SP; EQ; SP]))
       by (apply nonl_app; [reflexivity|]; apply nonl_app; [apply wordy_nonl; exact Hw | reflexivity]).
     assert (P2 : nonl ([SP; SP] ++ k ++ [SP; EQ; BAR; SP]))
@@ -578,13 +783,17 @@ Section RoundTrip.
     intros mn es H. induction H as [|[bn bl] es (Hw & Hs & Hb) Hes IH]; [constructor|].
     cbn [flat_map]. apply Forall_app. split; [|exact IH].
     unfold HumanText.blist_lines. cbn [fst snd] in *.
-    induction Hb as [|b bl Hb Hbl IHb]; [constructor|].
-    cbn [flat_map]. apply Forall_app. split; [|exact IHb].
-    unfold HumanText.block_lines. constructor.
-    - change (LBR :: bn ++ RBR :: block_suffix bn) with ([LBR] ++ bn ++ [RBR] ++ block_suffix bn).
+    assert (BL : forall sfx, nonl sfx -> nonl (LBR :: bn ++ RBR :: sfx)).
+    { intros sfx Hsfx. change (LBR :: bn ++ RBR :: sfx) with ([LBR] ++ bn ++ [RBR] ++ sfx).
       apply nonl_app; [reflexivity|]. apply nonl_app; [apply wordy_nonl; exact Hw|].
-      apply nonl_app; [reflexivity | apply Hs].
-    - eapply vars_lines_nonl. exact Hb.
+      apply nonl_app; [reflexivity | exact Hsfx]. }
+    destruct bl as [|b0 bl'].
+    - constructor; [|constructor]. apply BL. reflexivity.
+    - induction Hb as [|b bl Hb Hbl IHb]; [constructor|].
+      cbn [flat_map]. apply Forall_app. split; [|exact IHb].
+      unfold HumanText.block_lines. constructor.
+      + apply BL. apply Hs.
+      + eapply vars_lines_nonl. exact Hb.
   Qed.
 
   (* ---- the theorem ---- *)
@@ -592,12 +801,8 @@ Section RoundTrip.
     wordy (m_name val m) /\ m_flags val m < 2048 /\ NoDup (names (m_blocks val m))
     /\ Forall (entry_ok (m_name val m)) (m_blocks val m) /\ Forall comment_ok (hdr_comments m).
 
-  Definition shown (m : msg val) : msg val :=
-    {| m_in := m_in val m; m_name := m_name val m; m_flags := m_flags val m;
-       m_blocks := drop_empty (m_blocks val m) |}.
-
-  Theorem text_roundtrip_gen : forall safe m, wf_msg m ->
-    from_human safe (to_human m) = OMsg val (shown m) [].
+  Theorem text_roundtrip : forall safe m, wf_msg m ->
+    from_human safe (to_human m) = OMsg val m [].
   Proof.
     intros safe m (Hw & Hf & Hnd & Hes & Hcs).
     destruct (header_ok m Hw Hf) as (H1 & H2 & H3 & H4 & H5).
@@ -613,24 +818,10 @@ Section RoundTrip.
     rewrite preps_app. rewrite go_comments by exact Hcs.
     rewrite preps_cons. change (preps [[]]) with (@nil str). cbn [app].
     rewrite preps_app. change (preps [[]]) with (@nil str).
-    destruct (go_entries safe (m_in val m) (m_name val m) (m_flags val m) [] [] (m_blocks val m) [] None Hnd Hes)
+    destruct (go_entries safe (m_in val m) (m_name val m) (m_flags val m) [] [] (m_blocks val m) [] None [] Hnd Hes)
       as [cur' E].
-    unfold mk in E. unfold HumanText.body_lines. rewrite E. reflexivity.
-  Qed.
-
-  Definition no_empty (m : msg val) : Prop := Forall (fun e => snd e <> []) (m_blocks val m).
-
-  Lemma drop_empty_id : forall es, Forall (fun e : str * list (block val) => snd e <> []) es -> drop_empty es = es.
-  Proof.
-    intros es H. induction H as [|[bn bl] es Hb Hes IH]; [reflexivity|].
-    unfold drop_empty. cbn [filter snd]. cbn [snd] in Hb. destruct bl; [contradiction|].
-    f_equal. exact IH.
-  Qed.
-
-  Theorem text_roundtrip : forall safe m, wf_msg m -> no_empty m ->
-    from_human safe (to_human m) = OMsg val m [].
-  Proof.
-    intros safe m Hwf Hne. rewrite text_roundtrip_gen by exact Hwf. f_equal.
-    unfold shown. rewrite drop_empty_id by exact Hne. destruct m; reflexivity.
+    unfold mk in E. unfold HumanText.body_lines. rewrite E. cbn [HumanText.go HumanText.flush s_pend s_msg m_blocks s_trace app].
+    pose proof (flush_entries (m_name val m) [] (m_blocks val m) [] Hnd Hes) as F.
+    rewrite app_nil_r in F. cbn [app] in F. rewrite F. cbn [flush_packed]. destruct m; reflexivity.
   Qed.
 End RoundTrip.
